@@ -134,6 +134,14 @@ Definition doc_stages : list stage :=
     SNeed kw_method CbFeatures CbFeatures;
     SDispatch kw_method ].                        (* validate(), then embed()      *)
 
+(* the stage order of the tree BEFORE repair F27 (no parameters.checkTypes(defaults)): kept for the
+   regression theorems *)
+Definition is_check_types (st : stage) : bool := match st with SCheckTypes => true | _ => false end.
+Definition old_stages (l : list stage) : list stage := filter (fun st => negb (is_check_types st)) l.
+Definition old_of (T : tables) : tables :=
+  {| t_kwtypes := t_kwtypes T; t_defaults := t_defaults T; t_stages := old_stages (t_stages T);
+     t_methods := t_methods T; t_rethrow := t_rethrow T |}.
+
 Definition doc_rethrow : list (sw_exc * exc) :=
   [ (SwWrongValue, WrongValue); (SwWrongType, WrongType); (SwMultiple, Multiple); (SwMissed, Missed) ].
 
@@ -196,8 +204,8 @@ Definition doc_method_table : list doc_method :=
     {| dm_id := tSNE;   dm_kernel := false; dm_distance := false; dm_features := true;
        dm_cells := [cell_perplexity; cell_theta]; dm_pre := [ev CbFeatures] |};
     (* Manifold Sculpting materialises the feature matrix, then searches neighbours with the
-       distance callback (its traits declare features only: finding F13 of property C13) *)
-    {| dm_id := ManifoldSculpting; dm_kernel := false; dm_distance := false; dm_features := true;
+       distance callback (traits: distance and features since repair F13 of property C13) *)
+    {| dm_id := ManifoldSculpting; dm_kernel := false; dm_distance := true; dm_features := true;
        dm_cells := [cell_squishing];
        dm_pre := [ev CbFeatures; chk cell_num_neighbors; ev CbDistance] |} ].
 
@@ -312,7 +320,12 @@ Fixpoint late_safe (sure : callback -> bool) (seen : bool) (steps : list step) :
       end
   end.
 
+Definition is_eval (s : step) : bool := match snd s with BEval _ => true | _ => false end.
+Definition no_eval (s : step) : bool := negb (is_eval s).
+
+(* validate() only converts and checks (its steps are summarised without the cut) *)
 Definition method_ok (m : method_info) : bool :=
+  forallb no_eval (m_validate m) &&
   forallb step_typed (m_validate m ++ m_embed m) &&
   late_safe (needs m) false (m_validate m ++ m_embed m).
 
